@@ -7,8 +7,3 @@ ENGINES = [
 ]
 NOT_BUILT = "not yet built in this round: model, theorems and harness for this property are planned in DESIGN.md section 8 but no check exists yet, so it is not claimed"
 NOT_APPLICABLE = {("C%02d" % i): NOT_BUILT for i in range(1, 21)}
-META = {}
-META["C18"] = dict(
-    text="Proved in Coq for all integers and byte strings: VM integer codec round-trip, two's-complement meaning of the decoder, minimality and canonical form, 256-bit range = 32 bytes. The Gallina model follows the mechanism of pkg/encoding/bigint and is tied to the Go code by differential evaluation on a boundary lattice. Partial: ECDSA/WIF/NEP-2 are not modelled.",
-    note="Trusted: Coq kernel and vm_compute, the Go harness, the orchestration script; the model is hand-written and tied to the code by correspondence only (not by translation). Elliptic-curve arithmetic, scrypt, AES, SHA-256/RIPEMD-160 implementations are neither modelled nor verified.",
-)
